@@ -83,7 +83,7 @@ func drawAny(t *rapid.T, env anyEnv) *model.Msg {
 		return &model.Msg{}
 	}
 	name := rapid.SampledFrom(bodyTypes).Draw(t, "bodytype")
-	if env.depth <= 0 && (name == anyName || name == "google.golang.org.Article" || name == "pb2.KnownTypes") {
+	if env.depth <= 0 && name == anyName {
 		name = "google.golang.org.KeyValueAttachment"
 	}
 	url := "type.googleapis.com/" + name
@@ -103,6 +103,9 @@ func drawAny(t *rapid.T, env anyEnv) *model.Msg {
 	body := gen.DrawMessage(t, md, o)
 	sub := env
 	sub.depth--
+	if sub.depth >= 0 && rapid.Bool().Draw(t, "nest") {
+		force(t, md, body, isAnyField, func(protoreflect.MessageDescriptor) *model.Msg { return &model.Msg{} })
+	}
 	fixAny(t, md, body, sub)
 	var val []byte
 	if kind == 5 {
@@ -150,22 +153,102 @@ func fixAny(t *rapid.T, md protoreflect.MessageDescriptor, m *model.Msg, env any
 	}
 }
 
+// force populates one more field of m (a value of md) among those pick accepts: a singular value,
+// 1-3 list elements or 1-3 map entries whose message values come from val.
+func force(t *rapid.T, md protoreflect.MessageDescriptor, m *model.Msg, pick func(protoreflect.FieldDescriptor) bool, val func(protoreflect.MessageDescriptor) *model.Msg) {
+	var cands []protoreflect.FieldDescriptor
+	fs := md.Fields()
+	for i := 0; i < fs.Len(); i++ {
+		fd := fs.Get(i)
+		if !pick(fd) || m.Get(int32(fd.Number())) != nil {
+			continue
+		}
+		if od := fd.ContainingOneof(); od != nil {
+			taken := false
+			for j := 0; j < od.Fields().Len(); j++ {
+				taken = taken || m.Get(int32(od.Fields().Get(j).Number())) != nil
+			}
+			if taken {
+				continue
+			}
+		}
+		cands = append(cands, fd)
+	}
+	if len(cands) == 0 {
+		return
+	}
+	fd := cands[rapid.IntRange(0, len(cands)-1).Draw(t, "forced")]
+	f := model.Field{Num: int32(fd.Number())}
+	switch {
+	case fd.IsMap():
+		var keys []model.Val
+		switch fd.MapKey().Kind() {
+		case protoreflect.BoolKind:
+			keys = []model.Val{{}, {U: 1}}
+		case protoreflect.StringKind:
+			keys = []model.Val{{B: []byte("")}, {B: []byte("a")}, {B: []byte("b")}, {B: []byte("zz")}, {B: []byte("é")}, {B: []byte("Z")}}
+		case protoreflect.Int32Kind, protoreflect.Sint32Kind, protoreflect.Sfixed32Kind, protoreflect.Int64Kind, protoreflect.Sint64Kind, protoreflect.Sfixed64Kind:
+			keys = []model.Val{{}, {U: 1}, {U: 2}, {U: ^uint64(0)}, {U: 1 << 20}, {U: uint64(1<<64 - 1<<31)}}
+		default:
+			keys = []model.Val{{}, {U: 1}, {U: 2}, {U: 1<<32 - 1}, {U: 300}}
+		}
+		n := rapid.IntRange(1, min(3, len(keys))).Draw(t, "forcedlen")
+		off := rapid.IntRange(0, len(keys)-1).Draw(t, "forcedkey")
+		for i := 0; i < n; i++ {
+			f.Keys = append(f.Keys, keys[(off+i*5)%len(keys)])
+			f.Vals = append(f.Vals, model.Val{M: val(fd.MapValue().Message())})
+		}
+		// keys must be distinct
+		seen := map[string]bool{}
+		kk, vv := f.Keys[:0:0], f.Vals[:0:0]
+		for i, k := range f.Keys {
+			id := fmt.Sprintf("%d|%s", k.U, k.B)
+			if !seen[id] {
+				seen[id] = true
+				kk, vv = append(kk, k), append(vv, f.Vals[i])
+			}
+		}
+		f.Keys, f.Vals = kk, vv
+	case fd.IsList():
+		for i, n := 0, rapid.IntRange(1, 3).Draw(t, "forcedlen"); i < n; i++ {
+			f.Vals = append(f.Vals, model.Val{M: val(fd.Message())})
+		}
+	default:
+		f.Vals = []model.Val{{M: val(fd.Message())}}
+	}
+	m.Fields = append(m.Fields, f)
+}
+
+func isAnyField(fd protoreflect.FieldDescriptor) bool {
+	if fd.IsMap() {
+		fd = fd.MapValue()
+	}
+	return fd.Message() != nil && fd.Message().FullName() == anyName
+}
+
+func isMsgMap(fd protoreflect.FieldDescriptor) bool {
+	return fd.IsMap() && fd.MapValue().Message() != nil && fd.MapValue().Message().FullName() != anyName
+}
+
 func drawMessageCase(t *rapid.T, small bool) rangeCase {
 	c := rangeCase{Mode: "both"}
-	switch rapid.IntRange(0, 9).Draw(t, "pool") {
-	case 0, 1, 2, 3:
+	pool := rapid.IntRange(0, 9).Draw(t, "pool")
+	switch {
+	case pool <= 2:
 		c.Type = rapid.SampledFrom(anyTypes).Draw(t, "type")
-	case 4, 5:
+	case pool <= 4:
 		c.Type = rapid.SampledFrom(mapTypes).Draw(t, "type")
+	case pool <= 8:
+		c.Type = rapid.SampledFrom(rich).Draw(t, "type")
 	default:
-		c.Type = gen.TypeName(types, rich).Draw(t, "type")
+		c.Type = rapid.SampledFrom(types).Draw(t, "type")
 	}
 	c.Dynamic = rapid.IntRange(0, 4).Draw(t, "dyn") == 0
 	c.Stable = rapid.IntRange(0, 3).Draw(t, "stable") > 0
 	c.Resolver = rapid.SampledFrom([]string{"default", "default", "default", "global", "none", "subset"}).Draw(t, "resolver")
 	if c.Resolver == "subset" {
 		for _, n := range bodyTypes {
-			if rapid.Bool().Draw(t, "known") {
+			if rapid.IntRange(0, 3).Draw(t, "known") > 0 {
 				c.Subset = append(c.Subset, n)
 			}
 		}
@@ -178,8 +261,10 @@ func drawMessageCase(t *rapid.T, small bool) rangeCase {
 	}
 	md := corpus.ByName(c.Type).Descriptor()
 	o := gen.DefaultMsgOpts
+	o.MaxFields = 9
+	o.FillRequired = false // initialisation is irrelevant to a traversal (Any bodies are decoded with AllowPartial)
 	if small {
-		o.Depth, o.MaxFields, o.MaxList, o.MaxBytes = 2, 3, 2, 12
+		o.Depth, o.MaxFields, o.MaxList, o.MaxBytes = 2, 4, 2, 12
 	}
 	// extension fields inside an Any body are resolved by Options.Resolver: only generate them when
 	// that resolver knows them
@@ -190,17 +275,28 @@ func drawMessageCase(t *rapid.T, small bool) rangeCase {
 	}
 	if md.FullName() == anyName {
 		c.M = drawAny(t, env)
-	} else {
-		ro := o
-		ro.Extensions = true
-		c.M = gen.DrawMessage(t, md, ro)
-		fixAny(t, md, c.M, env)
+		return c
 	}
+	ro := o
+	ro.Extensions = true
+	c.M = gen.DrawMessage(t, md, ro)
+	so := ro
+	so.Depth--
+	so.MaxFields = so.MaxFields*2/3 + 1
+	if pool <= 2 {
+		// an Any one level down: below a message field of the root, or the root's own
+		force(t, md, c.M, isAnyField, func(protoreflect.MessageDescriptor) *model.Msg { return &model.Msg{} })
+	}
+	if pool == 3 || pool == 4 {
+		force(t, md, c.M, isMsgMap, func(sub protoreflect.MessageDescriptor) *model.Msg { return gen.DrawMessage(t, sub, so) })
+	}
+	fixAny(t, md, c.M, env)
 	return c
 }
 
-// callbacksOf runs the reference alone to learn how many callbacks an uncontrolled traversal makes.
-func callbacksOf(c *rangeCase) int {
+// callbacksOf runs the reference alone to learn how many callbacks an uncontrolled traversal makes
+// and which of them happen at depth >= 2.
+func callbacksOf(c *rangeCase) (n int, deep []int) {
 	m, err := c.newMessage()
 	if err != nil {
 		panic(err)
@@ -209,16 +305,28 @@ func callbacksOf(c *rangeCase) int {
 	root, _ := buildReference(m, eff)
 	plain := *c
 	plain.Plan = nil
-	return len(expectedEvents(root, &plain).events)
+	evs := expectedEvents(root, &plain).events
+	for i, e := range evs {
+		if len(e.path) > 2 {
+			deep = append(deep, i)
+		}
+	}
+	return len(evs), deep
 }
 
 var doPool = []string{"break", "break", "break", "terminate", "error"}
 
 func drawRange(t *rapid.T) rangeCase {
 	c := drawMessageCase(t, false)
-	n := callbacksOf(&c)
+	n, deep := callbacksOf(&c)
 	for i, k := 0, rapid.IntRange(0, 3).Draw(t, "nactions"); i < k && n > 0; i++ {
-		c.Plan = append(c.Plan, action{At: rapid.IntRange(0, n-1).Draw(t, "at"), Do: rapid.SampledFrom(doPool).Draw(t, "do")})
+		a := action{Do: rapid.SampledFrom(doPool).Draw(t, "do")}
+		if len(deep) > 0 && rapid.IntRange(0, 2).Draw(t, "deep") > 0 {
+			a.At = deep[rapid.IntRange(0, len(deep)-1).Draw(t, "at")]
+		} else {
+			a.At = rapid.IntRange(0, n-1).Draw(t, "at")
+		}
+		c.Plan = append(c.Plan, a)
 	}
 	return c
 }
@@ -318,7 +426,7 @@ func TestRange(t *testing.T) {
 		Check:      checkRange,
 		NonTrivial: func(c rangeCase) bool { return interesting(last) },
 		Classes:    func(c rangeCase) []string { return classesOf(c, last) },
-		Quick:      12000, Thorough: 150000,
+		Quick:      7000, Thorough: 100000,
 	})
 }
 
@@ -376,6 +484,6 @@ func TestControlAll(t *testing.T) {
 			}
 			return out
 		},
-		Quick: 2500, Thorough: 30000,
+		Quick: 700, Thorough: 8000,
 	})
 }
